@@ -45,6 +45,15 @@ CHECKS = {
         note="No axioms. Four repaired defects (D5 nil pause channel, D6 empty rollout balancer, D17 wildcard sub-path restore failure) kept as refuted lemmas on the pinned variant. "
              "JSON encoding is Go's (invalid UTF-8 in a stop message is replaced by U+FFFD: outside the generator, documented).",
         technique="Coq proof (bisimulation up to unobservable fields) + kernel-evaluated differential runs", ref="§7 C11"),
+    "C13": dict(
+        text="Theorems on model/Url.v + model/Headers.v over all byte strings (props/C13.v: path round trip for valid encodings, decoded path kept, "
+             "identity without stripping, literal-prefix stripping byte for byte, query verbatim, X-Forwarded-* table, request id/start policy, "
+             "end-to-end header passage); correspondence: raw requests over loopback TCP through the real handler chain to a byte-recording "
+             "target, generated/malformed paths, queries, header sets, response shapes; strict monitor evaluated in the Coq kernel.",
+        note="No axioms. net/url, net/http and ReverseProxy wire behaviour (hop-by-hop removal, Date, sniffing, gzip) modelled and compared, not proved; "
+             "six recorded findings (known_findings/C13.json: invalid path bytes re-encoded, sniffed Content-Type, transparent gunzip, User-Agent quirks, "
+             "Connection-listed request id dropped, 304 loses Content-Type); repaired defect: prefix stripping lost percent-encoding.",
+        technique="Coq proof (codec round-trip lemmas over bytes) + kernel-evaluated correspondence with known-finding patterns", ref="§7 C13"),
     "C14": dict(
         text="Theorems over all limits, chunkings and handler operation sequences on model/Buffer.v (props/C14.v); the model is tied to buffer.go "
              "and both middlewares by a correspondence run evaluated in the Coq kernel (exhaustive small scope + random Target-level exchanges).",
